@@ -250,9 +250,10 @@ def run(ctx):
     skipped, kinds = {}, {}
     distinct = set()
     samples = []
+    corpus = common.load_corpus("C20")
     while ran < n and tries < n * 3 and not ctx.violations:
         tries += 1
-        case = gen_case(rng)
+        case = corpus.pop(0) if corpus else gen_case(rng)
         fails, why = check_case(case)
         if fails is None:
             skipped[why] = skipped.get(why, 0) + 1
